@@ -42,7 +42,9 @@ func (t *Dense) T(axes ...int) (err error) {
 
 	// swap out the old and the new
 	t.old = t.AP
-	t.transposeWith = axes
+	// the axes may be the caller's slice: keep a private copy, UT() hands it back to the pool
+	t.transposeWith = BorrowInts(len(axes))
+	copy(t.transposeWith, axes)
 	t.AP = transform
 	return nil
 }
@@ -82,7 +84,9 @@ func (t *Dense) SafeT(axes ...int) (retVal *Dense, err error) {
 	retVal.oe = t.oe
 	retVal.AP = transform
 	t.AP.CloneTo(&retVal.old)
-	retVal.transposeWith = axes
+	// the axes may be the caller's slice: keep a private copy, UT() hands it back to the pool
+	retVal.transposeWith = BorrowInts(len(axes))
+	copy(retVal.transposeWith, axes)
 
 	return
 }
